@@ -94,6 +94,50 @@ pub fn gen_inst(r: &mut Rng, max_c: usize, max_p: usize, rooms_mode: usize) -> I
     if pen_style == 4 {
         style.push_str("+bigpen");
     }
+    // special shape (1 in 5): a course with a high minimum that hardly anybody wants, and instructors (with own choices) of other,
+    // often fixed, courses who want it: exercises the wrong-course heuristic of check_feasibility
+    if nc >= 2 && np >= 3 && r.chance(1, 5) {
+        style.push_str("+niche");
+        let n = r.below(nc);
+        courses[n].min = 2 + r.below(2);
+        courses[n].max = courses[n].max.max(courses[n].min + r.below(2));
+        let mut keep = r.range(0, 1);
+        for p in 0..np {
+            if parts[p].iter().any(|(c, _)| *c == n) && parts[p].len() > 1 {
+                if keep > 0 {
+                    keep -= 1;
+                } else {
+                    parts[p].retain(|(c, _)| *c != n);
+                }
+            }
+        }
+        let ninstr = r.range(1, 2);
+        for _ in 0..ninstr {
+            let f = r.below(nc);
+            if f == n {
+                continue;
+            }
+            let i = match courses[f].instr.first() {
+                Some(i) => *i,
+                None => {
+                    let cand: Vec<usize> = (0..np).filter(|p| !courses.iter().any(|c| c.instr.contains(p))).collect();
+                    if cand.is_empty() {
+                        continue;
+                    }
+                    let i = *r.pick(&cand);
+                    courses[f].instr.push(i);
+                    i
+                }
+            };
+            if !parts[i].iter().any(|(c, _)| *c == n) {
+                parts[i].insert(0, (n, 0));
+                for (rank, ch) in parts[i].iter_mut().enumerate() {
+                    ch.1 = rank as u32;
+                }
+            }
+            courses[f].fixed = r.chance(1, 2);
+        }
+    }
     let rooms = match rooms_mode {
         0 => None,
         1 => Some(gen_rooms(r, nc, &courses)),
